@@ -20,7 +20,7 @@ tvars == <<i, run, wo, drift, sawRead, dropIP, started>>
 ST == INSTANCE SessionTrace WITH w <- wo
 Recs == ST!Recs
 
-EnvRecs == {"issue", "cancel", "drop_handle", "deliver", "change", "fault", "timeout"}
+EnvRecs == {"issue", "cancel", "drop_handle", "deliver", "change", "fault", "timeout", "wstall", "wresume"}
 KeepModel == UNCHANGED <<w, pc, queue, cur, consumed, bstart, nchg, sched>>
 
 \* what the model must predict about the observable world at quiescent points
